@@ -36,6 +36,7 @@ func (e *Engine) unitRelevant(con *Contract, prop string) bool {
 	all = append(all, con.Requires...)
 	all = append(all, con.Ensures...)
 	all = append(all, con.AtCalls...)
+	all = append(all, con.Forbids...)
 	for _, ls := range con.Loops {
 		all = append(all, ls.Invariants...)
 		all = append(all, ls.Steps...)
